@@ -166,6 +166,15 @@ def inapplicableRootFragment (s : Schema) (d : QueryDoc) : Bool :=
        let loose := (looseRootLevel d (d.frags.length + 1) op.sel []).1
        (addNew [] loose).length != (addNew [] ((collectRootFields s d obj op.sel).map (·.1))).length)
 
+/-- some subscription collects NO root field at all (every selection sits below a type condition that
+    cannot apply to the subscription root type) -/
+def subscriptionCollectsNothing (s : Schema) (d : QueryDoc) : Bool :=
+  d.ops.any fun op =>
+    op.op == kwSubscription &&
+    (match rootDef s op.op with
+     | none => false
+     | some obj => (collectRootFields s d obj op.sel).isEmpty)
+
 /-- same shape when the nullability of LIST wrappers is ignored -/
 def wrappersUpToListNullability : GType → GType → Bool
   | .named _ na _, .named _ nb _ => na == nb
@@ -205,6 +214,7 @@ def diagWords (s : Schema) (d : QueryDoc) : List String :=
   flag "varInFragmentDefinitionDirective" (d.frags.any fun f => !(usesInDirs s f.dirs).isEmpty) ++
   flag "listNullabilityDiffers" (listNullabilityDiffers s d) ++
   flag "inapplicableRootFragment" (inapplicableRootFragment s d) ++
+  flag "subscriptionCollectsNothing" (subscriptionCollectsNothing s d) ++
   flag "fragmentVariableDefinitions" (d.frags.any fun f => !f.vars.isEmpty)
 
 end Gql.Validate.Spec
